@@ -584,7 +584,7 @@ def _run(pid, tier, cf, rep, tf, rng, timing, instances, pool, replay_file, t0):
                     free_rounds=cf["free_rounds"]),
         tlc=dict(bind=dict(states=bind.states, distinct=bind.distinct, candidates=len(bind_cands), wall=round(bind.wall, 2)),
                  bfs=bfs_stats, sim=sim_stats, trace_validation=adj),
-        programs=dict(projected_writes=n_writes, projected_reads=n_reads,
+        access_programs=dict(projected_writes=n_writes, projected_reads=n_reads,
                       full_events=sum(len(primaries(p)) for r in recs for p in r["progs"]),
                       mem0_conflicts=mem0_conflicts, history_dependent_sequential_outcomes=history_dep),
         candidates=dict(exported=n_cand_total, replayed=cand_used),
